@@ -432,7 +432,13 @@ class C16(Monitor):
         kind = tr.ev[2] if tr.ev[0] == 'raise' else 'Boom-unkeyable-%s' % tr.extra.get('value_kind')
         evald = len(tr.logdelta)
         if evald == 0:
-            # answered from the cache: the function was never asked, nothing can raise
+            # answered from the cache: the function was never asked, nothing can raise -- provided there was an entry to
+            # answer from.  A call whose key is stored nowhere has to ask the function, and then its exception is due
+            stored = tr.key in tr.pre.mem or tr.key in (tr.pre.arch or ()) or tr.key in (tr.pre.swap or ())
+            if tr.exc is None and tr.ev[0] == 'raise' and not stored:
+                out.append((_sig(cfg, 'C16', 'raising-call-answered-without-evaluation', exc=kind),
+                            'no result is stored for this call (key %r) and the function raises %s for it, but the call returned %r '
+                            'without evaluating the function' % (tr.key, kind, tr.ret)))
             return out
         if tr.exc is None:
             out.append((_sig(cfg, 'C16', 'exception-swallowed', exc=kind),
@@ -529,6 +535,12 @@ class C18(Monitor):
         if kind in ('redec', 'reclone') and tr.exc is None:
             if S.wrapper.__wrapped__ is not S.fn:
                 out.append((_sig(cfg, 'C18', 'wrapped-not-original'), '__wrapped__ is not the original function'))
+        # a call answered without evaluating the function was answered from the entry key() names
+        if kind == 'call' and tr.exc is None and not tr.logdelta and not tr.extra.get('nested'):
+            if not (tr.key in tr.pre.mem or tr.key in (tr.pre.arch or ()) or tr.key in (tr.pre.swap or ())):
+                out.append((_sig(cfg, 'C18', 'answered-from-entry-key-does-not-name'),
+                            'the call was answered (%r) without evaluation, but key() = %r names no stored entry; memory holds %r' % (
+                                tr.ret, tr.key, sorted(map(repr, tr.pre.mem)))))
         # a stored call is found under key(): after a call, if anything holds the result it is under tr.key
         if kind == 'call' and tr.exc is None and not tr.incoherent and tr.logdelta:
             new_mem = set(tr.post.mem) - set(tr.pre.mem)
